@@ -2,7 +2,8 @@
 (* transition cover x read battery for PointObject (Chow's W-method with the reads as characterisation *)
 (* set; see MCOrbitProbe / DESIGN 11.5): every writer out of every core state, then every read.        *)
 EXTENDS MCPointObject
-CONSTANTS CoreLen, Battery      \* Battery: which read sequence follows the writer
+CONSTANTS CoreLen, Battery,     \* Battery: which read sequence follows the writer
+          CoreOps               \* operations allowed while the core states are explored (tier-dependent: cost)
 VARIABLE probe
 pvars == <<vars, probe>>
 
@@ -32,10 +33,25 @@ IsOp(e) == LastRec.op = e[1] /\ LastRec.arg = e[2]
 
 ProbeInit == Init /\ probe = 0
 ProbeNext ==
-    \/ probe = 0 /\ Len(hist) < CoreLen /\ Next /\ probe' = 0
+    \/ probe = 0 /\ Len(hist) < CoreLen /\ Next /\ LastRec.op \in CoreOps /\ probe' = 0
     \/ probe = 0 /\ Next /\ LastRec.op \in ProbeWriters /\ probe' = 1
     \/ probe \in 1 .. Len(ReadSeq) /\ Do(ReadSeq[probe][1], ReadSeq[probe][2]) /\ probe' = probe + 1
 ProbeSpec == ProbeInit /\ [][ProbeNext]_pvars
+
+(* Persistence probe: [writer A;] Save; writer B; Load | LoadInplace; reads  (see MCFamilyProbe) *)
+StateWriters == {"SetOptions", "SetConfig", "SysGetPoint"}
+PReadSeq == << <<"ReadOptions", <<>>>>, <<"ReadConfig", <<>>>>, <<"SysPoints", <<>>>>, <<"Eigenvalues", <<>>>>, <<"Position", <<>>>> >>
+PersistInit == Init /\ probe = -4
+PersistNext ==
+    \/ probe = -4 /\ Next /\ LastRec.op \in StateWriters /\ probe' = -3
+    \/ probe = -4 /\ UNCHANGED vars /\ probe' = -3
+    \/ probe = -3 /\ Do("Save", <<>>) /\ probe' = -2
+    \/ probe = -2 /\ Next /\ LastRec.op \in StateWriters /\ probe' = -1
+    \/ probe = -1 /\ (Do("Load", <<>>) \/ Do("LoadInplace", <<>>)) /\ probe' = 1
+    \/ probe \in 1 .. Len(PReadSeq) /\ Do(PReadSeq[probe][1], PReadSeq[probe][2]) /\ probe' = probe + 1
+PersistSpec == PersistInit /\ [][PersistNext]_pvars
+PersistView == <<probe, hist>>
+EmitPersist == (probe = Len(PReadSeq) + 1) => PrintT(ToJson(hist))
 
 CoreView  == <<Lo, Lc, Lpts, Io, Ic, Ipts, pc, sc, left, saved>>
 ProbeView == IF probe = 0 THEN <<CoreView, 0, <<>>>> ELSE <<CoreView, probe, hist>>
